@@ -111,6 +111,39 @@ pub fn bitset_graph(n: usize, idx: usize) -> GraphSpec {
     GraphSpec { n, vals: vec![0; n], edges }
 }
 
+/// C12 after a container history: members are removed and inserted again (same handle), also interleaved with other
+/// inserts, before the graph is serialised - whatever the container remembers about its past must not show
+pub fn serde_history_case(fl: &str, id: &str, g: &GraphSpec, rng: &mut Rng) -> Vec<String> {
+    let mut l = vec![format!("case {fl} {id}")];
+    l.extend(graph_lines(g));
+    l.push("g.new 0".into());
+    let order = shuffled(rng, g.n);
+    for &k in &order {
+        l.push(format!("g.insert 0 {k}"));
+    }
+    for _ in 0..1 + rng.below(3) {
+        let k = rng.below(g.n);
+        l.push(format!("g.remove 0 {k}"));
+        if rng.chance(30) {
+            let k2 = rng.below(g.n);
+            l.push(format!("g.remove 0 {k2}"));
+            l.push(format!("g.insert 0 {k2}"));
+        }
+        l.push(format!("g.insert 0 {k}"));
+        if rng.chance(30) {
+            l.push(format!("g.insert 0 {k}"));
+        }
+    }
+    for fmt in ["json", "cbor"] {
+        l.push(format!("g.ser 0 {fmt}"));
+        l.push(format!("g.serraw 0 {fmt}"));
+        l.push(format!("g.roundtrip 0 {fmt}"));
+        l.push("dump".into());
+        l.push("g.iter 0".into());
+    }
+    l
+}
+
 /// C12: serialise / round-trip through both formats, then observe everything
 pub fn serde_case(fl: &str, id: &str, g: &GraphSpec) -> Vec<String> {
     let mut l = vec![format!("case {fl} {id}")];
